@@ -352,15 +352,23 @@ type respRec struct {
 }
 
 type runObs struct {
-	Resp   []respRec                 `json:"resp"`
-	Err    string                    `json:"err"`
-	Code   string                    `json:"code"`
-	Stores map[string]map[string]any `json:"stores"` // store map at the end of the linear phase (typed)
-	HasMap bool                      `json:"hasmap"`
-	Files  []fileRec                 `json:"files"` // files under the state store after the run
-	Jobs   []string                  `json:"jobs"`  // "stage:segment" in the order the jobs COMPLETED
-	Sched  []map[string]any          `json:"sched"` // scheduler trace (Update hook)
-	Panic  string                    `json:"panic"`
+	Resp     []respRec                 `json:"resp"`
+	Err      string                    `json:"err"`
+	Code     string                    `json:"code"`
+	Stores   map[string]map[string]any `json:"stores"` // store map at the end of the linear phase (typed)
+	HasMap   bool                      `json:"hasmap"`
+	Files    []fileRec                 `json:"files"` // files under the state store after the run
+	Jobs     []string                  `json:"jobs"`  // "stage:segment" in the order the jobs COMPLETED
+	Sched    []map[string]any          `json:"sched"` // scheduler trace (Update hook)
+	Panic    string                    `json:"panic"`
+	Stages   stageView                 `json:"stages"`   // first / last segment index of every stage of the scheduler (empty without scheduler)
+	Leftover bool                      `json:"leftover"` // a job was still running 15 s after the request ended
+}
+
+type stageView struct {
+	Kinds []string `json:"kinds"`
+	First []int    `json:"first"`
+	Last  []int    `json:"last"`
 }
 
 type sysEnv struct {
@@ -447,12 +455,13 @@ type gatedWorker struct {
 }
 
 type jobGate struct {
-	mu      sync.Mutex
-	r       *rand.Rand
-	waiting []chan struct{}
-	running int
-	done    []string
-	workers int
+	mu       sync.Mutex
+	r        *rand.Rand
+	waiting  []chan struct{}
+	running  int
+	done     []string
+	workers  int
+	inflight sync.WaitGroup // job commands still running (a request can end while a job it started is still writing files)
 }
 
 // release policy: when every started job is waiting at the gate (or nothing else can start), release one at random.
@@ -485,13 +494,29 @@ func (g *jobGate) arrive(label string) {
 	g.mu.Unlock()
 }
 
+// releaseAll lets every job waiting at the gate go (end of the request) and stops gating.
+func (g *jobGate) releaseAll() {
+	g.mu.Lock()
+	for _, c := range g.waiting {
+		close(c)
+	}
+	g.waiting = nil
+	g.mu.Unlock()
+}
+
 func (w *gatedWorker) ID() string { return fmt.Sprintf("w%d", w.id) }
 
 func (w *gatedWorker) Work(ctx context.Context, unit stage.Unit, startBlock uint64, moduleNames []string, upstream *response.Stream) loop.Cmd {
 	ctx = reqctx.WithTier2RequestParameters(ctx, reqctx.Tier2RequestParameters{
 		BlockType: blockType, StateBundleSize: w.cfg.Seg, StateStoreURL: w.env.dir, StateStoreDefaultTag: "tag", MeteringConfig: "null://", MergedBlockStoreURL: "/tmp/verif-no-merged-blocks"})
 	request := work.NewRequest(ctx, reqctx.Details(ctx), unit.Stage, startBlock)
+	if os.Getenv("VERIF_LOG") != "" {
+		lg, _ := zap.NewDevelopment()
+		ctx = reqctx.WithLogger(ctx, lg)
+	}
 	return func() loop.Msg {
+		w.gate.inflight.Add(1)
+		defer w.gate.inflight.Done()
 		svc := service.TestNewServiceTier2(false, func(ctx context.Context, h bstream.Handler, start int64, stop uint64, _ string, _ bool, _ bool, _ *zap.Logger, _ ...bsstream.Option) (service.Streamable, error) {
 			return &linearStream{h: h, start: uint64(start), end: stop}, nil
 		})
@@ -506,7 +531,8 @@ func (w *gatedWorker) Work(ctx context.Context, unit stage.Unit, startBlock uint
 }
 
 func runTier1(env *sysEnv, cfg runCfg, cursor string, traceSched bool) (obs runObs) {
-	obs = runObs{Resp: []respRec{}, Stores: map[string]map[string]any{}, Files: []fileRec{}, Jobs: []string{}, Sched: []map[string]any{}}
+	obs = runObs{Resp: []respRec{}, Stores: map[string]map[string]any{}, Files: []fileRec{}, Jobs: []string{}, Sched: []map[string]any{},
+		Stages: stageView{Kinds: []string{}, First: []int{}, Last: []int{}}}
 	base, err := dstore.NewStore(env.dir, "zst", "zstd", true)
 	if err != nil {
 		obs.Err = err.Error()
@@ -593,6 +619,8 @@ func runTier1(env *sysEnv, cfg runCfg, cursor string, traceSched bool) (obs runO
 	}
 	orchestrator.VerifOnScheduler = func(s *scheduler.Scheduler) {
 		s.WorkerPool.VerifSkipRampup()
+		in0 := s.Stages.VerifInternals()
+		obs.Stages = stageView{Kinds: append([]string{}, in0.Kinds...), First: append([]int{}, in0.First...), Last: append([]int{}, in0.Last...)}
 		if traceSched {
 			obs.Sched = append(obs.Sched, map[string]any{"ev": "sinit", "internals": s.Stages.VerifInternals(), "rows": rows(s), "walker": walkerOf(s),
 				"workers": len(s.WorkerPool.VerifStates())})
@@ -651,6 +679,16 @@ func runTier1(env *sysEnv, cfg runCfg, cursor string, traceSched bool) (obs runO
 			obs.Stores = typedStoreMap(env, sm)
 			obs.HasMap = true
 		}
+	}
+	// quiesce: a request may return while a job it started is still running (its files keep landing); the next request of
+	// the scenario must start on a cache nobody writes to
+	gate.releaseAll()
+	quiet := make(chan struct{})
+	go func() { gate.inflight.Wait(); close(quiet) }()
+	select {
+	case <-quiet:
+	case <-time.After(15 * time.Second):
+		obs.Leftover = true
 	}
 	gate.mu.Lock()
 	obs.Jobs = append(obs.Jobs, gate.done...)
